@@ -63,6 +63,16 @@ class Sender(object):
     def __repr__(self):
         return 'Sender(%s)' % self.name
 
+    # senders compare by value (two views of the same thing are equal without being one object)
+    def __eq__(self, other):
+        return isinstance(other, Sender) and other.name == self.name
+
+    def __ne__(self, other):
+        return not self.__eq__(other)
+
+    def __hash__(self):
+        return hash(('Sender', self.name))
+
 
 class EmptySender(Sender):
     """A sender that is falsy (an empty container-like object, e.g. a view without items): a sender
@@ -143,8 +153,13 @@ class World(object):
             kw = {'k': 2}
             if single:
                 kw['single'] = True
+            emitted = self.senders[sname]
+            if emitted is not None and not single:
+                # an object equal to the registered filter without being it: the callbacks receive the
+                # emitting object
+                emitted = type(emitted)(emitted.name)
             try:
-                ret = em.emit(ev, self.senders[sname], (3, 4), **kw)     # a tuple as positional argument
+                ret = em.emit(ev, emitted, (3, 4), **kw)     # a tuple as positional argument
             except Exception as e:
                 return ('emit-exception', 'no exception', '%s: %s' % (type(e).__name__, e))
             order, calls = ref.emit(ev, sname, single)
@@ -167,7 +182,7 @@ class World(object):
                 if c[3] != ((3, 4),) or c[4] != {'k': 2}:
                     return ('arguments', {'args': ((3, 4),), 'kwargs': {'k': 2}},
                             {'args': c[3], 'kwargs': c[4]})
-                if c[2] is not self.senders[sname]:
+                if c[2] is not emitted:
                     return ('sender-object', sname, repr(c[2]))
             results = [None if l == 'c1' else 'ret-%s-%s' % (l, e_) for (l, e_, s_) in calls]
             if single:
